@@ -1,19 +1,17 @@
 (* Model of backoff (backoff.go): setDefault / durationForAttempt / duration / reset.
    Executable definitions only.
 
-   Numbers are Z.  Go's [int] fields are int64 on the supported platform; the only
-   place where the model wraps is the one where the code can really overflow inside
-   the domain below: [time.Duration(d) * time.Millisecond] ([to_duration]).  The
-   float64 computation [min(float64(Cap), float64(Base) * Pow(float64(Factor),
-   float64(attempt)))] followed by [int(Trunc(.))] is modelled by exact integer
-   arithmetic ([expo]); that the two agree is checked differentially by the
-   correspondence run (DESIGN.md 6.C19, "Partial").
+   Numbers are Z.  Go's [int] fields are int64 on the supported platform.  The float64
+   computation [min(float64(Cap), float64(Base) * Pow(float64(Factor), float64(attempt)))],
+   saturated at maxMs and converted to int64, is modelled by exact integer arithmetic
+   ([expo], [max_ms]); that the two agree is checked differentially by the correspondence
+   run (DESIGN.md 6.C19, "Partial").  The conversion [time.Duration(d) * time.Millisecond]
+   is written with its int64 wrap ([to_duration]) and proved not to wrap.
 
-   Domain of the model (the correspondence glue rejects everything else):
-   Base, Factor >= 0, attempt >= 0 (0 fields take the defaults); Cap any integer
-   (a negative Cap is the "malformed" stream: it is how [rand.Intn] gets a
-   non-positive argument and panics).  [attempt++] is modelled without the int64
-   wrap (2^63 consecutive failures). *)
+   Domain (what the property quantifies over; the correspondence glue answers a constant
+   for everything else): Base, Factor, Cap positive after the defaults (0 fields take the
+   defaults), attempt >= 0.  [attempt++] is modelled without the int64 wrap (2^63
+   consecutive failures). *)
 From Coq Require Import List ZArith Bool.
 From XV Require Import Gen.Generated.
 Import ListNotations.
@@ -71,22 +69,27 @@ Definition millisecond : Z := 1000000.   (* ns *)
 Definition wrap64 (z : Z) : Z := (z + 2 ^ 63) mod 2 ^ 64 - 2 ^ 63.
 Definition to_duration (d : Z) : Z := wrap64 (d * millisecond).
 
-(* result of a call: a time.Duration in ns, or a panic of the random draw *)
-Inductive outcome := Dur (ns : Z) | Panic.
+(* const maxMs = MaxInt64 / int64(time.Millisecond): the largest whole number of ms a
+   time.Duration can hold.  The repaired code (D22) saturates there, in the float domain,
+   before any integer conversion, so the multiplication above never wraps. *)
+Definition max_ms : Z := 9223372036854.
 
-(* The delay.  Without jitter: d ms converted to a Duration.  With jitter ("full
-   jitter"): some Duration in [0, d ms), chosen by the global math/rand source, which
-   the model takes as an oracle argument [r] ranging over ALL of Z: the result is
-   r mod (d ms in ns).  This deliberately abstracts HOW the draw is made -- the code
-   draws whole milliseconds (rand.Intn(d) * time.Millisecond, the values k * 10^6 with
-   0 <= k < d, reached by r = k * 10^6: Proofs/BackoffP.v ms_draw_admissible); drawing
-   at nanosecond resolution is equally within the property ("between zero and that
-   value").  A draw from an empty range (d <= 0, only possible with a non-positive
-   Cap) panics in the code (rand.Intn: "invalid argument to Intn"). *)
+(* result of a call: a time.Duration in ns *)
+Inductive outcome := Dur (ns : Z).
+
+(* The delay (repaired behaviour, D22: saturation at max_ms; "d < 1 => return 0", which
+   only a negative attempt number reaches).  Without jitter: d ms converted to a Duration.
+   With jitter ("full jitter"): some Duration in [0, d ms), chosen by the global math/rand
+   source, which the model takes as an oracle argument [r] ranging over ALL of Z: the
+   result is r mod (d ms in ns).  This deliberately abstracts HOW the draw is made -- the
+   code draws whole milliseconds (rand.Int63n(d) * time.Millisecond, the values k * 10^6
+   with 0 <= k < d, reached by r = k * 10^6: Proofs/BackoffP.v ms_draw_admissible);
+   drawing at nanosecond resolution is equally within the property ("between zero and
+   that value").  Since d >= 1 where a draw is made, the draw cannot panic. *)
 Definition delay (b : backoff) (n r : Z) : outcome :=
-  let d := expo_exec b n in
-  if no_jitter b then Dur (to_duration d)
-  else if d <=? 0 then Panic
+  let d := Z.min max_ms (expo_exec b n) in
+  if d <? 1 then Dur 0
+  else if no_jitter b then Dur (to_duration d)
   else Dur (r mod to_duration d).
 
 (* durationForAttempt(attempt) -- repaired behaviour: uses its parameter (D5).
@@ -94,27 +97,21 @@ Definition delay (b : backoff) (n r : Z) : outcome :=
 Definition dur_for_attempt (b : backoff) (n r : Z) : backoff * outcome :=
   let b' := set_default b in (b', delay b' n r).
 
-(* duration(): durationForAttempt(b.attempt); attempt++ (not reached on panic) *)
+(* duration(): durationForAttempt(b.attempt); attempt++ *)
 Definition duration (b : backoff) (r : Z) : backoff * outcome :=
   let '(b', o) := dur_for_attempt b (attempt b) r in
-  match o with
-  | Panic => (b', Panic)
-  | Dur _ => (mkBackoff (no_jitter b') (base b') (factor b') (cap b') (attempt b' + 1), o)
-  end.
+  (mkBackoff (no_jitter b') (base b') (factor b') (cap b') (attempt b' + 1), o).
 
 Definition reset (b : backoff) : backoff :=
   mkBackoff (no_jitter b) (base b) (factor b) (cap b) 0.
 
-(* consecutive duration() calls, one oracle value each; a panic ends the sequence *)
+(* consecutive duration() calls, one oracle value each *)
 Fixpoint dur_seq (b : backoff) (rs : list Z) : backoff * list outcome :=
   match rs with
   | [] => (b, [])
   | r :: rs' =>
       let '(b1, o) := duration b r in
-      match o with
-      | Panic => (b1, [Panic])
-      | Dur _ => let '(b2, os) := dur_seq b1 rs' in (b2, o :: os)
-      end
+      let '(b2, os) := dur_seq b1 rs' in (b2, o :: os)
   end.
 
 (* a freshly constructed value: backoff{NoJitter: nj, Base: b, Factor: f, Cap: c} *)
